@@ -40,11 +40,11 @@ func (n *c06FakeNode) SetCtx(ctx context.Context, key string, val any) error {
 	return nil
 }
 func (n *c06FakeNode) SetWithExpire(key string, val any, expire time.Duration) error {
-	n.rec("set", key)
+	n.rec("setx:"+expire.String(), key)
 	return nil
 }
 func (n *c06FakeNode) SetWithExpireCtx(ctx context.Context, key string, val any, expire time.Duration) error {
-	n.rec("set", key)
+	n.rec("setx:"+expire.String(), key)
 	return nil
 }
 func (n *c06FakeNode) Take(val any, key string, query func(val any) error) error {
@@ -56,11 +56,11 @@ func (n *c06FakeNode) TakeCtx(ctx context.Context, val any, key string, query fu
 	return nil
 }
 func (n *c06FakeNode) TakeWithExpire(val any, key string, query func(val any, expire time.Duration) error) error {
-	n.rec("take", key)
+	n.rec("takex", key)
 	return nil
 }
 func (n *c06FakeNode) TakeWithExpireCtx(ctx context.Context, val any, key string, query func(val any, expire time.Duration) error) error {
-	n.rec("take", key)
+	n.rec("takex", key)
 	return nil
 }
 
@@ -94,7 +94,7 @@ func c06Repr(v any) string {
 }
 
 //verif:entry tier=quick,thorough steps=1000000 maporder=perm cover=single,multi,wrap
-//verif:doc cacheCluster over the real consistent-hash ring (2 nodes, fixed placement) with recording nodes: 3 operations, each symbolically Take / TakeWithExpire / Get / Set / SetWithExpire / Del(one key) / Del(two or three keys) on keys from {ka, kb, kc}: every operation reaches exactly the node that owns its key, exactly once - so reads, writes and invalidations of a key always meet on the same node - and a multi-key Del delivers each key to its owner.
+//verif:doc cacheCluster over the real consistent-hash ring (2 nodes, fixed placement) with recording nodes: 3 operations, each symbolically Take / TakeWithExpire / Get / Set / SetWithExpire / Del(one key) / Del(two or three keys) on keys from {ka, kb, kc}: every operation reaches exactly the node that owns its key, exactly once, as the same operation with the same requested expiry - so reads, writes and invalidations of a key always meet on the same node - and a multi-key Del delivers each key to its owner.
 func Verif_C06_Cluster() {
 	n1, n2 := &c06FakeNode{name: "n1"}, &c06FakeNode{name: "n2"}
 	d := hash.NewCustomConsistentHash(1, c06Hash)
@@ -118,7 +118,7 @@ func Verif_C06_Cluster() {
 			want[owner[k]] = append(want[owner[k]], c06Call{"take", k})
 		case 1:
 			cc.TakeWithExpireCtx(ctx, &row, k, func(any, time.Duration) error { return nil })
-			want[owner[k]] = append(want[owner[k]], c06Call{"take", k})
+			want[owner[k]] = append(want[owner[k]], c06Call{"takex", k})
 		case 2:
 			cc.GetCtx(ctx, k, &row)
 			want[owner[k]] = append(want[owner[k]], c06Call{"get", k})
@@ -126,8 +126,8 @@ func Verif_C06_Cluster() {
 			cc.SetCtx(ctx, k, &row)
 			want[owner[k]] = append(want[owner[k]], c06Call{"set", k})
 		case 4:
-			cc.SetWithExpireCtx(ctx, k, &row, time.Minute)
-			want[owner[k]] = append(want[owner[k]], c06Call{"set", k})
+			cc.SetWithExpireCtx(ctx, k, &row, 90*time.Second)
+			want[owner[k]] = append(want[owner[k]], c06Call{"setx:" + (90 * time.Second).String(), k})
 		case 5:
 			rt.Cover("single")
 			cc.DelCtx(ctx, k)
